@@ -73,6 +73,38 @@ func globalRoot(v ssa.Value) *ssa.Global {
 	}
 }
 
+// sliceGlobalRoot: the slice value v is, on some path, the value of a package-level slice variable (loaded
+// directly, resliced, or merged at a φ): it shares the variable's backing array. Results of append are not
+// followed (they may or may not share it).
+func sliceGlobalRoot(v ssa.Value, seen map[ssa.Value]bool) *ssa.Global {
+	if seen[v] {
+		return nil
+	}
+	seen[v] = true
+	switch x := v.(type) {
+	case *ssa.UnOp:
+		if x.Op == token.MUL {
+			if g, ok := x.X.(*ssa.Global); ok {
+				if _, isSlice := x.Type().Underlying().(*types.Slice); isSlice {
+					return g
+				}
+			}
+		}
+	case *ssa.Slice:
+		if g := globalRoot(x.X); g != nil {
+			return g
+		}
+		return sliceGlobalRoot(x.X, seen)
+	case *ssa.Phi:
+		for _, e := range x.Edges {
+			if g := sliceGlobalRoot(e, seen); g != nil {
+				return g
+			}
+		}
+	}
+	return nil
+}
+
 // instrDominates: a dominates b (same function).
 func instrDominates(a, b ssa.Instruction) bool {
 	ba, bb := a.Block(), b.Block()
@@ -179,7 +211,7 @@ func onceBodies(fns []*ssa.Function) map[*ssa.Function]bool {
 
 // E7Globals: package-level state of the module is never written without synchronisation.
 func E7Globals(c *core.Ctx, r *core.Report) map[*ssa.Global]string {
-	r.Rule("E7.global", "every store to a package-level variable of the module outside package initialisation happens inside a sync.Once/OnceFunc body, while a mutex stored in the same variable is held, or through sync/atomic; every load of a variable that is written under its mutex also happens with the mutex held")
+	r.Rule("E7.global", "every store to a package-level variable of the module — also an element store through a local slice that is, on some path, the package-level slice itself (loaded, resliced or merged at a φ; results of append are not followed) — outside package initialisation happens inside a sync.Once/OnceFunc body, while a mutex stored in the same variable is held, or through sync/atomic; every load of a variable that is written under its mutex also happens with the mutex held")
 	fns := moduleFunctions(c)
 	once := onceBodies(fns)
 	class := map[*ssa.Global]string{}
@@ -197,6 +229,11 @@ func E7Globals(c *core.Ctx, r *core.Report) map[*ssa.Global]string {
 				case *ssa.Store:
 					if g := globalRoot(x.Addr); g != nil && g.Pkg != nil && strings.HasPrefix(g.Pkg.Pkg.Path(), core.Module) {
 						stores = append(stores, acc{fn, ins, g})
+					} else if ia, ok := x.Addr.(*ssa.IndexAddr); ok {
+						// an element store through a slice value that is (on some path) the package-level slice itself
+						if g := sliceGlobalRoot(ia.X, map[ssa.Value]bool{}); g != nil && g.Pkg != nil && strings.HasPrefix(g.Pkg.Pkg.Path(), core.Module) {
+							stores = append(stores, acc{fn, ins, g})
+						}
 					}
 				case *ssa.MapUpdate:
 					if u, ok := x.Map.(*ssa.UnOp); ok {
